@@ -77,4 +77,16 @@ Proof.
   - apply (KInv_session task net logev (sim_exec v) v fuel pfuel (sc_net p) []).
   - apply (AInv_session task net logev (sim_exec v) v fuel pfuel (sc_net p) []).
 Qed.
+
+(* the fire-time invariant: every successful timer completion happens at max(expiry, start of the wait) *)
+Theorem composite_TInv (p : script) : d2_clock_fixed v = true -> TInv task net logev (run_script v fuel pfuel p).
+Proof.
+  intros D2. unfold run_script.
+  assert (forall cs s, TInv task net logev s -> TInv task net logev (fold_left (main_step v fuel pfuel) cs s)) as H.
+  { induction cs as [|c cs IH]; intros s T; [exact T|]. simpl. apply IH. rewrite main_step_is_a_session_step.
+    destruct c; apply TInv_dstep; try assumption.
+    destruct T as (K & G & F). split; [apply KInv_set_world; exact K|].
+    split; [revert G; apply GInv_ext; reflexivity|exact F]. }
+  apply H. apply (TInv_session task net logev (sim_exec v) v D2 fuel pfuel (sc_net p) []).
+Qed.
 End Composite.
